@@ -25,7 +25,7 @@ def deser_token(kind, text, replay_children=False, action=None):
             v = json.loads(text)
         except Exception:  # noqa: BLE001
             return "?" + text[:40]
-        return token_of(v)
+        return "" if v == "" and isinstance(v, str) and action != "START" else token_of(v)   # invoke results are event values, not pool tokens
     if kind == "context" and replay_children:
         return text  # summary, raw
     try:
@@ -183,7 +183,7 @@ FOCUS = {
     "C12": {"step": 55, "wait": 6, "cbnew": 2, "cbres": 2, "invoke": 3, "wfc": 6, "child": 12, "log": 4},
     "C04": {"step": 55, "wait": 6, "cbnew": 2, "cbres": 2, "invoke": 3, "wfc": 6, "child": 12, "log": 4},
     "C16": {"step": 20, "wait": 8, "cbnew": 4, "cbres": 4, "invoke": 6, "wfc": 8, "child": 40, "log": 4},
-    "C17": {"step": 25, "wait": 10, "cbnew": 5, "cbres": 5, "invoke": 5, "wfc": 8, "child": 12, "log": 40},
+    "C17": {"step": 22, "wait": 8, "cbnew": 7, "cbres": 8, "invoke": 12, "wfc": 8, "child": 12, "log": 40},
 }
 
 
@@ -297,7 +297,7 @@ def make_fail_exc(kind):
 def gen_outcome_event(rng):
     k = rng.choice(["succeeded", "succeeded", "failed", "timedOut", "stopped"])
     if k == "succeeded":
-        return {"k": "succeeded", "v": rng.choice([None, "R:ok", "R:x2"])}
+        return {"k": "succeeded", "v": rng.choice([None, "R:ok", "R:x2", ""])}
     if k == "failed":
         return {"k": "failed", "e": rng.choice([None, {"message": "extfail", "type": "ExtError"}, {"message": "", "type": None}])}
     return {"k": k}
